@@ -263,7 +263,7 @@ class NumInterp(Interp):
         }
         import math as _math
         import cmath as _cmath
-        self.mathfuncs = {'math': {k: getattr(_math, k) for k in ('pi', 'cos', 'sin', 'sqrt', 'floor', 'ceil', 'e', 'exp', 'tau', 'atan2', 'acos', 'asin')},
+        self.mathfuncs = {'math': {k: getattr(_math, k) for k in ('pi', 'cos', 'sin', 'sqrt', 'floor', 'ceil', 'e', 'exp', 'tau', 'atan2', 'acos', 'asin', 'isclose', 'log', 'hypot', 'fmod', 'prod')},
                           'cmath': {k: getattr(_cmath, k) for k in ('exp', 'sqrt', 'pi', 'phase', 'cos', 'sin')}}
         import textwrap as _tw, itertools as _it, json as _json
         self.stdlib = {'textwrap': _tw, 'itertools': _it, 'json': _json}     # pure standard-library helpers may be called
@@ -311,6 +311,10 @@ class NumInterp(Interp):
             pairs = self._comp(ast.ListComp(elt=ast.Tuple(elts=[n.key, n.value], ctx=ast.Load()), generators=n.generators), 0, [])
             return dict(pairs)
         if isinstance(n, ast.Call):
+            if self.call_hook is not None:          # the rule's own model of a call takes precedence over generic evaluation
+                r = self.call_hook(n, self)
+                if r is not NotImplemented:
+                    return r
             if isinstance(n.func, ast.Attribute) and n.func.attr in ('conjugate', 'conj') and not n.args:
                 v = self.ev(n.func.value)
                 if isinstance(v, (int, float, complex)):
